@@ -250,7 +250,8 @@ def r05e(model, ctx):
     ctx.check(ok, R, "PySimEngine.set_value", "eval_assign(state, Value.cast(expr), value)",
               "set_value must assign through eval_assign(state, Value.cast(expr), value)", f"{PYSIM}:{f.lineno}")
     f = model.func(f"{PYEVAL}::eval_assign")
-    ok = any(pmatch("_eval_assign_inner(sim, lhs, 0, value, len(lhs))", n) is not None for n in ast.walk(f))
+    from ..engine.inline import propagate_locals as _pl
+    ok = any(pmatch("_eval_assign_inner(sim, lhs, 0, value, len(lhs))", n) is not None for n in ast.walk(_pl(f)))
     ctx.check(ok, R, "eval_assign", "window [0, len(lhs))",
               "eval_assign must start the walk with the window [0, len(lhs)) of the whole target", f"{PYEVAL}:{f.lineno}")
 
